@@ -6,6 +6,7 @@ import ast
 from sa.core import AnalysisError, unparse, walk_no_nested
 from sa.spaces import Classifier, key_test, table_kind
 from sa.terms import Expander, T, canon
+from sa.terms import fuse_comprehensions as _fuse_c
 from . import idx
 
 LEVEL = "other"
@@ -143,7 +144,7 @@ def _space_uses(repo, col, cl: Classifier):
                 kcs = idx.KCS if keyt.op != "const" else ("node",)
                 n_sc += idx.check_site(repo, col, cl, R, fi, "scatter." + n.func.attr, arr, ix, n, kcs=kcs)
                 # the value scattered belongs to the same key
-                v = ex.term(n.args[0])
+                v = _fuse_c(ex.term(n.args[0]))
                 # the index may be converted first (global edge index -> position within the synapse type): it must still be
                 # DERIVED from external_inds[<the same key>]
                 src_ix = T.find(ix, lambda x: x.op == "sub" and x.args[0].op == "param" and x.args[0].name == "external_inds")
@@ -497,22 +498,44 @@ def _time(repo, col, R="R-C08-time"):
 
     T_TERMS = {}
 
+    T_ATOMS = {}
+
+    def tl_leaf(x):
+        """L for the length of an entry; an own atom for every length-free term derived from t_max (the number of steps asked for,
+        however it is written); anything else opaque"""
+        if is_len(x):
+            return _Rat.atom("L")
+        if is_T(x) and T.find(x, is_len) is None:
+            T_ATOMS["T:" + x.key()] = x
+            return _Rat.atom("T:" + x.key())
+        return None
+
     def direction(g):
-        """+1: the condition says 'more steps asked for than available' (T > L or T >= L), -1: the opposite, None: other"""
+        """+1: the condition says 'more steps asked for than available' (T > L, T >= L, T - L > 0, 0 < T - L, ...), -1: the
+        opposite, None: not a comparison of the two.  Decided on the linear form lhs - rhs, so it does not matter on which side
+        and through which local variable (`num_missing = T - L`) the two quantities meet."""
         neg = False
-        while g.op == "not":
+        while g.op == "not" or (g.op == "unary" and g.name == "Not"):
             neg, g = not neg, g.args[0]
         if g.op != "cmp" or len(g.args) != 2 or g.name not in ("<", "<=", ">", ">="):
             return None
-        l, r = g.args
-        if is_T(l) and is_len(r):
-            d = 1 if g.name in (">", ">=") else -1
-            T_TERMS[l.key()] = l
-        elif is_len(l) and is_T(r):
-            d = 1 if g.name in ("<", "<=") else -1
-            T_TERMS[r.key()] = r
-        else:
+        try:
+            form = _trat(g.args[0], tl_leaf) - _trat(g.args[1], tl_leaf)
+        except _Und:
             return None
+        sgn = None
+        for an, tt in list(T_ATOMS.items()):
+            if form.eq(_Rat.atom(an) - _Rat.atom("L")):
+                sgn = 1
+            elif form.eq(_Rat.atom("L") - _Rat.atom(an)):
+                sgn = -1
+            else:
+                continue
+            T_TERMS[tt.key()] = tt
+            break
+        if sgn is None:
+            return None
+        d = sgn * (1 if g.name in (">", ">=") else -1)
         return -d if neg else d
 
     def key_is_i(g):
@@ -580,6 +603,8 @@ def _time(repo, col, R="R-C08-time"):
                         return _Rat.atom("L")
                     if x.key() in T_TERMS:   # the number of steps asked for, as it is compared with the length
                         return _Rat.atom("T")
+                    if is_T(x) and T.find(x, is_len) is None:
+                        return _Rat.atom("T:" + x.key())
                     return None
                 try:
                     rows = _trat(shp.args[0], leaf)
@@ -762,12 +787,15 @@ def _sibling(repo, col):
     b = repo.method("Module", "_data_external_input")
     ea, eb = idx.expander(repo, a), idx.expander(repo, b)
 
-    def norm_form(ex, fi):
+    def norm_form(ex, fi, ren=None):
         """(expanded-input term, batch assertion) of the batching normal form."""
         out = {}
         for n in walk_no_nested(fi.node):
             if isinstance(n, ast.Assert):
-                out["assert"] = canon(ex.term(n.test)).key()
+                t_ = ex.term(n.test)
+                if ren:
+                    t_ = idx.subst(t_, {k: T("param", v) for k, v in ren.items()})
+                out["assert"] = canon(t_).key()
         # the value finally stored / returned: find jnp.repeat(...) ifexp
         rep = None
         for c in ex.calls:
@@ -777,16 +805,12 @@ def _sibling(repo, col):
         out["has_repeat"] = rep is not None
         return out
 
-    na, nb = norm_form(ea, a), norm_form(eb, b)
-
-    # compare modulo the parameter names (values/state_array, key/state_name)
-    def rename(s, m):
-        for x, y in m.items():
-            s = s.replace(f"({x})", f"({y})").replace(f"{x},", f"{y},").replace(f"{x})", f"{y})")
-        return s
-
+    # compare modulo the parameter names: the two functions take (key, values) resp. (state_name, state_array) in this order
+    pa = [x.arg for x in a.node.args.args if x.arg != "self"]
+    pb = [x.arg for x in b.node.args.args if x.arg != "self"]
+    na, nb = norm_form(ea, a), norm_form(eb, b, dict(zip(pb[:2], pa[:2])))
     ka = na.get("assert", "")
-    kb = rename(nb.get("assert", ""), {"state_array": "values", "state_name": "key"})
+    kb = nb.get("assert", "")
     col.check(ka == kb and ka != "", R, b, "batch-size assertion identical in both", "batch in {1, n}",
               "the two input paths assert different batch sizes", node=b.node)
     col.check(na["has_repeat"] and nb["has_repeat"] and na["repeat_axis"] == nb["repeat_axis"] == "0", R, b,
